@@ -31,15 +31,16 @@ MCTypeOptSet(k) ==
               ts \in TraitSetsC12 \ {<<"Into">>}, g \in GenDescs, m \in Modes, nf \in BOOLEAN, dx \in BOOLEAN } :
       \* (a type-level Default expression: no field is defaulted, but the bound mode still rules the header)
       /\ o.newfn => o.traits = <<"Default">>
-      /\ o.dexpr => o.traits = <<"Default">> }
+      /\ o.dexpr => o.traits = <<"Default">>
+      /\ o.gen = "lc" => \A k2 \in DOMAIN o.bounds : o.bounds[k2] # "custom" }     \* (the custom predicate is about T)
   \cup
   \* Into: one or two targets, each with a bound mode of its own
-  { [DefOpts EXCEPT !.traits = <<"Into">>, !.gen = g, !.targets = <<"A">>, !.bounds = ("Into:A" :> m) @@ ("-" :> "auto")] :
-      g \in GenDescs, m \in Modes }
+  { o \in { [DefOpts EXCEPT !.traits = <<"Into">>, !.gen = g, !.targets = <<"A">>, !.bounds = ("Into:A" :> m) @@ ("-" :> "auto")] :
+               g \in GenDescs, m \in Modes } : o.gen = "lc" => o.bounds["Into:A"] # "custom" }
   \cup
   { [DefOpts EXCEPT !.traits = <<"Into">>, !.gen = g, !.targets = <<"A", "B">>,
                     !.bounds = ("Into:A" :> m) @@ ("Into:B" :> m2) @@ ("-" :> "auto")] :
-      g \in GenDescs, m \in Modes, m2 \in {"auto", "custom", "disabled"} }
+      g \in GenDescs \ {"lc"}, m \in Modes, m2 \in {"auto", "custom", "disabled"} }
 MCVarOptSet(c) ==
   { [DefVariant EXCEPT !.style = s, !.dflt = m] :
       s \in {"named", "tuple"}, m \in (IF c.kind = "enum" /\ HasTrait(c, "Default") THEN BOOLEAN ELSE {FALSE}) }
@@ -47,6 +48,7 @@ MCVarOptSet(c) ==
 Classes(c) ==
   CASE c.opts.gen = "TU" -> {"T", "U", "WrapT", "PairTU", "conc", "ArrT"}
     [] c.opts.gen = "rich" -> {"T", "WrapT", "PhantomT", "conc"}
+    [] c.opts.gen = "lc" -> {"ArrN", "conc"}                 \* (a field type that mentions the const parameter)
     [] OTHER -> {"RefT", "U", "PhantomT", "conc"}            \* (T is unsized: only behind a reference)
 Choices(c) ==
   LET has(t) == HasTrait(c, t) IN
@@ -69,7 +71,7 @@ ServesB(f) == \E k \in DOMAIN f.into : f.into[k].t = "B"
 
 PhantomField == [DefField EXCEPT !.ty = "PhantomAll"]
 PlainFields(c) ==
-  { [DefField EXCEPT !.ty = (IF c.opts.gen = "wide" THEN "U" ELSE "T"), !.into = IF HasTrait(c, "Into") /\ Len(c.opts.targets) = 2 THEN <<[t |-> "B", m |-> TRUE]>> ELSE <<>>] }
+  { [DefField EXCEPT !.ty = (IF c.opts.gen = "wide" THEN "U" ELSE IF c.opts.gen = "lc" THEN "ArrN" ELSE "T"), !.into = IF HasTrait(c, "Into") /\ Len(c.opts.targets) = 2 THEN <<[t |-> "B", m |-> TRUE]>> ELSE <<>>] }
 MCFieldSet(c) ==
   IF NVariants(c) = 0 THEN {}
   ELSE LET lv == Last(c.variants)
@@ -90,7 +92,7 @@ MCAdmissible(c) ==
                              \* (u8: Into<TA>) would be the user's own ill-typed input
                              /\ \A v \in 1..NVariants(c) : \A k \in DOMAIN c.opts.targets :
                                    LET t == c.opts.targets[k] IN
-                                     IntoMode(c, v, t) = "convert" => c.variants[v].fields[IntoField(c, v, t)].ty \in {"T", "U"}
+                                     IntoMode(c, v, t) = "convert" => c.variants[v].fields[IntoField(c, v, t)].ty \in {"T", "U", "ArrN"}
 
 Init == BuildInit
 Emit == phase = "sealed" /\ phase' = "emitted" /\ UNCHANGED cfg
